@@ -57,6 +57,9 @@ THEOREMS = [
     'CC.C11_reported_rest',
 ]
 LEAN_MODULE_EXTRA = ['CC.Properties.C11Flow', 'CC.Properties.C11Accessors']
+# TIE10B: the circuit-level wrapper whose dictionaries feed Lambda (seeded change C11-5B edits exactly these lines)
+THEOREMS += ['CC.C10_gen_wrapper_values', 'CC.C10_gen_wrapper_model']
+LEAN_MODULE_EXTRA += ['CC.Properties.C10Wrap']
 OPEN_STATEMENTS = ['not formalised: that the SIMULATED samples follow the flow — the flow clause is proved for exact solutions of ẋ = A x + B u(t) with the model\'s A, B over ℝ (C11_model_flow, C11_model_bounded, C11_model_flow_exp: stored energy antitone and states / outputs bounded on every interval on which all sources are zero); scipy.signal.lsim (zero-order/first-order hold discretisation, numerical exp(A·Δt), the sampling grid and the interpolation of the input between samples in TransientSolution) and binary64 rounding are not modelled, so the sampled-energy clause on the implementation stays oracle only',
                    'composed in round 5c (CC.Properties.C11Accessors): C11_reported_bounded_after_sources — for every node label / branch the c_row_* / d_row_* accessor rows exist, row_c·x(t) + row_d·u(t) is the reported potential / voltage / current (C10_rows_*), and for all t >= t1 (u = 0 on [t1, inf)) its square is <= (sum_j row_c[j]^2)·(2/lam)·E(t1), 0 < lam <= every C, L; C11_reported_rest — energy 0 at t1 (positive C, L) => every reported quantity is exactly 0 for t >= t1. Still outside: the constant is the plain Cauchy–Schwarz one (not the tighter weighted sum_j row_c[j]^2/w_j); the bound is for exact solutions of the ODE over ℝ (lsim, sampling and binary64 not modelled, see the first entry); powers (products of two reported quantities) are not stated separately']
 ASSUMPTIONS = [
